@@ -134,6 +134,29 @@ EXTRA13 = {
  "C19": "Round 13: the candidate among four to six arms led by scalar literals, the same match called repeatedly.",
  "C20": "Round 13: values generated to depth 9, towers to depth 16 over every kind of leaf; a string spelled like the rendering of its neighbour; a probe keeps the recorded finding about typed empty arrays visible.",
 }
+EXTRA14 = {
+ "C01": "Round 14: 210 sequences of programs importing one set of files that use names of their importer (other types, cells, parameters, nested imports); cells made without a declared type from union- and any-typed values and then tested as cells.",
+ "C02": "Round 14: the same import sequences and undeclared-cell programs under the panic guard.",
+ "C03": "Round 14: one fresh process per text for 13 operators with lazily built helpers inside 30-140 levels of harmless nesting.",
+ "C04": "Round 14: partial constants across levels (+ - * with a constant inside a comparison / & / >> with a constant, boundary ints, 54k twins).",
+ "C05": "Round 14: histories of imports that fail followed by imports of the same files that succeed; the orbit / bits / append workloads of C16 as an atomicity probe.",
+ "C06": "Round 14: nested-capture probes (a literal whose captures occur only in a literal nested in it, evaluated several times); sessions through the REPL executable (a failing statement after a redeclaration on one line).",
+ "C07": "Round 14: nested-capture probes with effect logs.",
+ "C08": "Round 14: a fourth route - the operands are variables of the embedding interpreter, the same program text for every pair.",
+ "C09": "Round 14: sequences of 63-1000 elements; one slicing operation executed repeatedly with changing bounds.",
+ "C11": "Round 14: the reducers are the documented folds where the running result leaves the int range and where every float step rounds.",
+ "C12": "Round 14: selection by == among many literal arms with signed zeros and NaN; conditions comparing a variable with itself.",
+ "C13": "Round 14: nested-capture probes over cells.",
+ "C14": "Round 14: the unparenthesised text compared with every grouping inside one expression; chains of 33-70 operands with the left-to-right value computed by the harness.",
+ "C15": "Round 14: 50 types computed by the checker (literals over union-typed elements, concatenations with [], joins of branches) printed, read back, compared.",
+ "C16": "Round 14: threads writing, reading back, copying, renaming, removing files of their own in one directory.",
+ "C17": "Round 14: no name that no input declares is bound on one route only; sessions repeating one input, sessions with a failing statement after a redeclaration, console-like variable names.",
+ "C18": "Round 14: the harness's reference model gives no answer for arguments outside its domain (the call is still made and judged).",
+ "C19": "Round 14: compounds holding a cell compared again after the cell was assigned; closures made by executing one named declaration several times.",
+ "C20": "Round 14: the type of what was read back is == to the original's in the implementation's own eyes; long renderings whose strings contain the separators of the rendering.",
+}
+for _k, _v in EXTRA14.items():
+    EXTRA13[_k] = (EXTRA13.get(_k, "") + " " + _v).strip()
 for _k, _v in EXTRA13.items():
     EXTRA[_k] = (EXTRA.get(_k, "") + " " + _v).strip()
 PENDING = {}
